@@ -67,6 +67,14 @@ inline bool bad_flag_only(int fd) {
     return true;
 }
 
+inline int bad_raw_close(int fd) {
+    return ::close(fd);                           // thin wrapper: fine by itself ...
+}
+
+inline void drops_wrapper_result(int fd) {
+    bad_raw_close(fd);                            // ... but this caller drops what it hands back
+}
+
 struct bad_dtor {
     FILE* m_file = nullptr;
     ~bad_dtor() {
@@ -140,6 +148,38 @@ inline void ok_rethrow(int fd) {
     }
 }
 
+inline int raw_fsync(int fd) noexcept {
+    return ::fsync(fd);                           // thin wrapper, every caller tests the result
+}
+
+inline void ok_wrapper(int fd) {
+    if (raw_fsync(fd) != 0) {
+        fail("fsync");
+    }
+}
+
+inline void ok_named_bool(gzFile f, const std::string& data) {
+    const int n = ::gzwrite(f, data.data(), static_cast<unsigned int>(data.size()));
+    const bool failed = n <= 0;                   // named local for the test
+    if (failed) {
+        fail("write");
+    }
+}
+
+inline void ok_flag_loop(int fd, const char* p, unsigned long size) {
+    unsigned long done = 0;
+    while (done != size) {
+        const long n = ::write(fd, p + done, size - done);
+        if (n == -1) {
+            if (errno == EINTR) {
+                continue;                         // the loop test still holds: re-enters the call
+            }
+            fail("write");
+        }
+        done += static_cast<unsigned long>(n);
+    }
+}
+
 struct ok_dtor {
     FILE* m_file = nullptr;
     ~ok_dtor() {
@@ -151,6 +191,7 @@ struct ok_dtor {
 
 inline void use(int fd, gzFile f, BZFILE* bz, char* d) {
     bad_ignored(fd); bad_wrong_test(f, "x"); bad_overwritten(fd); bad_partial(bz, d, 1); bad_swallowed(fd); (void)bad_flag_only(fd);
+    drops_wrapper_result(fd); ok_wrapper(fd); ok_named_bool(f, "x"); ok_flag_loop(fd, d, 1);
     bad_dtor b; ok_dtor o;
     ok_direct(fd); ok_negative_test(fd); ok_minus_one(fd); ok_helper(fd); ok_chain(fd, true); ok_null(fd); ok_bz(bz, d, 1); ok_rethrow(fd);
 }
